@@ -104,3 +104,9 @@ def inlined(prog, f, depth=3):
         ast.fix_missing_locations(node)
         _cache[key] = (node, inl.count)
     return _cache[key][0]
+
+
+def inlined_func(prog, f, depth=3):
+    """a FuncInfo twin of f whose body has the private expression helpers inlined"""
+    g = FuncInfo(f.module, f.qualname, inlined(prog, f, depth), cls=f.cls, parent=f.parent)
+    return g
